@@ -110,11 +110,17 @@ func (s *StateMachine) ValidateGenesisState(genesis *GenesisState) (err lib.Erro
 	if err = genesis.Params.Check(); err != nil {
 		return
 	}
+	// a record listed twice would be written once but counted twice in the supply and staking tallies
+	deDuplicateValidators, deDuplicateAccounts, deDuplicatePools := lib.NewDeDuplicator[string](), lib.NewDeDuplicator[string](), lib.NewDeDuplicator[uint64]()
 	// for each validator, apply basic validations on the required fields
 	for _, val := range genesis.Validators {
 		// ensure the validator address is the proper length
 		if len(val.Address) != crypto.AddressSize {
 			return ErrAddressSize()
+		}
+		// ensure the validator is listed once
+		if found := deDuplicateValidators.Found(lib.BytesToString(val.Address)); found {
+			return lib.ErrInvalidAddress()
 		}
 		// ensure the validator public key is the proper length
 		if !val.Delegate && len(val.PublicKey) != crypto.BLS12381PubKeySize {
@@ -130,6 +136,17 @@ func (s *StateMachine) ValidateGenesisState(genesis *GenesisState) (err lib.Erro
 		// ensure the account address has the proper size
 		if len(account.Address) != crypto.AddressSize {
 			return ErrAddressSize()
+		}
+		// ensure the account is listed once
+		if found := deDuplicateAccounts.Found(lib.BytesToString(account.Address)); found {
+			return lib.ErrInvalidAddress()
+		}
+	}
+	// for each pool
+	for _, pool := range genesis.Pools {
+		// ensure the pool is listed once
+		if found := deDuplicatePools.Found(pool.Id); found {
+			return ErrInvalidChainId()
 		}
 	}
 	// if the order books aren't nil
